@@ -16,4 +16,8 @@ pub assume_specification[ String::as_bytes ](s: &String) -> (r: &[u8]);
 pub assume_specification[ String::with_capacity ](n: usize) -> (r: String)
     ensures r@ == Seq::<char>::empty();
 
+// blanket `impl<T: Clone> ToOwned for T`: to_owned is clone
+pub assume_specification<T: Clone>[ <T as std::borrow::ToOwned>::to_owned ](t: &T) -> (r: T)
+    ensures call_ensures(T::clone, (t,), r);
+
 } // verus!
